@@ -72,6 +72,7 @@ type BlockedInfo struct {
 
 // Exec is one execution.
 type Exec struct {
+	freeSel int // selects with several ready cases met so far in this execution
 	threads []*thread
 	cur     *thread
 	parked  chan struct{}
